@@ -27,6 +27,7 @@ from common import err_kind
 S = 4                     # order values are multiples of 1/4; the model gets 4·value as Int
 BASE = "/var/tmp"
 SIG_BOX = "C12:lammps:box-paired-with-last"
+SIGNALS = (-9, -11, -15)      # SIGKILL, SIGSEGV, SIGTERM delivered by someone else than infretis
 
 
 # ----------------------------------------------------------------------------- geometry (own formulas)
@@ -826,12 +827,14 @@ def gen_ext_cases(ctx):
     wit = [(1.0 + 0.5 * k if k < 5 else 9.0, 10.0 + 2 * k, 1.0) for k in range(6)]
     cases.append(dict(engine="lammps", frames=wit, coarse=[(1, 3, 0, 1), (1, 6, 0, 1), (1, 6, 0, 0)], code=0, maxlen=20,
                       left=0.5, right=8.0, rev=0, sub=1, tag="witness"))
-    # A. exhaustive tick-level schedules, n ≤ 2
+    # A. exhaustive tick-level schedules, n ≤ 2 (exit codes 0, 3 and death by a signal infretis did not send)
+    nsig = 0
     H = 7 if quick else 9
     for n in (0, 1, 2):
         for times in mono_tuples(n + 2, H):
             c, arr, x = times[0], list(times[1:-1]), times[-1]
-            for code in (0, 3):
+            nsig += 1
+            for code in (0, 3, SIGNALS[nsig % 3]):
                 fr = lammps_frames(n, "grow", n - 1)
                 cases.append(dict(engine="lammps", frames=fr, sched=sched_from_times(c, arr, x), code=code, maxlen=5,
                                   left=0.5, right=8.0, rev=0, sub=1, tag="tick-exh"))
@@ -841,6 +844,20 @@ def gen_ext_cases(ctx):
             for code in (0, 3):
                 cases.append(dict(engine=eng, frames=[], sched=[(0, 0, 0, 1)] * j + [(0, 0, 0, 0)], code=code, maxlen=3,
                                   left=0.5, right=8.0, rev=0, sub=1, start=(1.0, 30.0, 1.0), tag="no-file"))
+    # A''. the program is killed from outside (OOM killer -9, segfault -11, batch system -15) after writing only
+    #      frames inside the interfaces, before the stop frame: every death tick, both engines, limits not reached
+    for eng in ("lammps", "cp2k"):
+        for sig in SIGNALS:
+            for nvis in (0, 1, 2):
+                for x in range(0, 9):
+                    fr = [(1.0, 30.0, 1.0), (1.5, 30.0, 2.0), (9.0, 30.0, 3.0)]
+                    sched = [(1, min(nvis, t + 1), min(nvis, t + 1), 1) for t in range(x)] + [(1, nvis, nvis, 0)]
+                    cases.append(dict(engine=eng, frames=fr[:nvis] if nvis else [], sched=sched, code=sig, maxlen=6,
+                                      left=0.5, right=8.0, rev=0, sub=1, start=(1.0, 30.0, 1.0), tag="signal-before-stop"))
+                    # … and after the crossing frame became visible (infretis may or may not get to see it first)
+                    sched2 = [(1, min(3, t + 1), min(3, t + 1), 1) for t in range(x)] + [(1, 3, 3, 0)]
+                    cases.append(dict(engine=eng, frames=fr, sched=sched2, code=sig, maxlen=6, left=0.5, right=8.0,
+                                      rev=0, sub=1, tag="signal-around-stop"))
     # B. exhaustive per-sleep schedules, n = 3, 4 × box pattern × crossing frame × length limit × exit code
     for n in (3, 4):
         for times in mono_tuples(n + 1, n):
@@ -855,7 +872,7 @@ def gen_ext_cases(ctx):
             for (pattern, cross, dm) in pick:
                 fr = lammps_frames(n, pattern, cross)
                 ml = max(1, (cross + 1 if cross < n else n) + dm)
-                cases.append(dict(engine="lammps", frames=fr, coarse=sched_from_times(c, arr, x), code=rng.choice((0, 0, 2)),
+                cases.append(dict(engine="lammps", frames=fr, coarse=sched_from_times(c, arr, x), code=rng.choice((0, 0, 2, -9, -15)),
                                   maxlen=ml, left=0.5, right=8.0, rev=rng.choice((0, 1)), vel_rev0=rng.choice((False, True)),
                                   sub=rng.choice((1, 2, 3)), lo=rng.choice((0.0, 0.0, 1.0)), tag="sleep-exh"))
     # C. random fine schedules with boundary-valued orders (equal to an interface)
@@ -870,7 +887,7 @@ def gen_ext_cases(ctx):
             fr.append((d, L, float(rng.randint(-3, 3))))
         times = sorted(rng.randint(0, 3 * n + 6) for _ in range(n + 2))
         cases.append(dict(engine="lammps", frames=fr, sched=sched_from_times(times[0], times[1:-1], times[-1]),
-                          code=rng.choice((0, 0, 1, 7)), maxlen=rng.randint(1, n + 1), left=0.5, right=8.0,
+                          code=rng.choice((0, 0, 1, 7, -9, -11, -15)), maxlen=rng.randint(1, n + 1), left=0.5, right=8.0,
                           rev=rng.choice((0, 1)), vel_rev0=rng.choice((False, True)), sub=rng.choice((1, 2, 3)),
                           lo=rng.choice((0.0, 2.0)), tag="random"))
     # D. CP2K: position and velocity files advance independently
@@ -885,7 +902,7 @@ def gen_ext_cases(ctx):
                     if quick and rng.random() < 0.5:
                         continue
                     fr = [(1.0 + 0.5 * k if k < n - 1 else 9.0, 30.0, float(k + 1)) for k in range(n)]
-                    cases.append(dict(engine="cp2k", frames=fr, sched=sched_from_times(c, pa, x, va), code=rng.choice((0, 4)),
+                    cases.append(dict(engine="cp2k", frames=fr, sched=sched_from_times(c, pa, x, va), code=rng.choice((0, 4, -9, -11, -15)),
                                       maxlen=4, left=0.5, right=8.0, rev=rng.choice((0, 1)), vel_rev0=rng.choice((False, True)),
                                       sub=rng.choice((1, 2, 3)), start=(1.0, 30.0, 1.0) if n == 0 else None, tag="cp2k-exh"))
     for _ in range(120 if quick else 2500):
@@ -894,7 +911,7 @@ def gen_ext_cases(ctx):
         pt = sorted(rng.randint(0, 2 * n + 4) for _ in range(n + 1))
         vt = sorted(rng.randint(pt[0], 2 * n + 4) for _ in range(n))
         x = max(pt + vt) + rng.randint(0, 2)
-        cases.append(dict(engine="cp2k", frames=fr, sched=sched_from_times(pt[0], pt[1:], x, vt), code=rng.choice((0, 0, 5)),
+        cases.append(dict(engine="cp2k", frames=fr, sched=sched_from_times(pt[0], pt[1:], x, vt), code=rng.choice((0, 0, 5, -9, -11, -15)),
                           maxlen=rng.randint(1, n + 1), left=0.5, right=8.0, rev=rng.choice((0, 1)),
                           vel_rev0=rng.choice((False, True)), sub=rng.choice((1, 2, 3)), tag="cp2k-random"))
     for c in cases:
@@ -1112,7 +1129,8 @@ def _run(ctx):
                 mv = model_view(m)
                 same = (cv == mv and obs["ticks"] == m["ticks"]
                         and (obs["proc"] == "stopped") == m["dead"]
-                        and (obs["returncode"] == -15) == m["killed"])
+                        and (obs["returncode"] is None or not m["dead"]
+                             or obs["returncode"] == (-15 if m["killed"] else case["code"])))
                 if same:
                     agree.append(variant)
             if not agree:
